@@ -171,7 +171,7 @@ def analyse_kani(data):
 def concrete_playback(config, harness_id):
     """-> {check description: [[bytes], ...]} for the failed checks of one harness"""
     tdir = os.path.join(BUILD, 'kani-' + config)
-    cmd = kani_cmd(config, tdir) + ['-Z', 'concrete-playback', '--concrete-playback=print', '--output-format', 'terse',
+    cmd = kani_cmd(config, tdir) + ['-Z', 'concrete-playback', '--concrete-playback=print', '--output-format', 'terse', '--no-assertion-reach-checks',
                                     '--harness', harness_id, '--exact', '--harness-timeout', '30m']
     rc, out, dt = sh(cmd, cwd=HARNESS, timeout=3600)
     try:
@@ -294,18 +294,34 @@ def replay_counterexample(prop, config, name, h, items, obligations, bins, extra
             if msg == item['desc'] or item['desc'] in msg or msg in item['desc']:
                 key = (cat, msg)
                 break
-        if key is None:
-            attempts.append(dict(check=item['desc'], native='no concrete values produced by Kani'))
-            continue
-        rr = native_replay(bins, name, vals[key])
-        ok = any((xc == 1) or (xc == 3 and item not in obligations) for (xc, line) in rr.values())
-        rec = dict(property=prop, harness=name, config=config, check=item['desc'], where=item['loc'], function=item['function'],
-                   values=vals[key], native=rr, replay='harness/replay %s "%s"' % (name, encode_vals(vals[key])))
-        if extra_bins:
-            rec['native_other_config'] = native_replay(extra_bins, name, vals[key])
-        attempts.append(rec)
-        if ok:
-            return rec, attempts
+        # Kani prints one playback test per distinct value vector: when the failing check shares its values with a
+        # cover point only the cover's header appears.  So: the vector printed for this check if there is one,
+        # otherwise every printed vector is tried; a vector counts only if the native run fails *this* check
+        # (or, for a failure inside the code under test, panics there).
+        cands = [key] if key is not None else list(vals)
+        if not cands:
+            # no playback at all (Kani's playback mode needs a CBMC trace, which CBMC cannot build for some harnesses, e.g.
+            # zero-sized arrays of >= 2^63 elements): concretise the reported failure by a native search over boundary values
+            xc, o, _ = sh([bins['dev'], 'search', name, '200000'], timeout=900)
+            m = re.search(r'^SEARCH .* outcome=(FAILED|PANIC) (?:check|message)=(".*?") values=(\S*)$', o, re.M)
+            if m and ((m.group(1) == 'FAILED' and item['desc'] in m.group(2)) or (m.group(1) == 'PANIC' and item not in obligations)):
+                v = [[int(b) for b in e.split(',') if b != ''] for e in m.group(3).split(';') if e != '']
+                vals[('search', item['desc'])] = v
+                cands = [('search', item['desc'])]
+                key = cands[0]
+            else:
+                attempts.append(dict(check=item['desc'], native='no concrete values produced by Kani; native search: ' + o.strip()[-160:]))
+                continue
+        for k in cands:
+            rr = native_replay(bins, name, vals[k])
+            ok = any((xc == 1 and (key is not None or item['desc'] in line)) or (xc == 3 and item not in obligations) for (xc, line) in rr.values())
+            rec = dict(property=prop, harness=name, config=config, check=item['desc'], where=item['loc'], function=item['function'],
+                       values=vals[k], native=rr, replay='harness/replay %s "%s"' % (name, encode_vals(vals[k])))
+            if extra_bins:
+                rec['native_other_config'] = native_replay(extra_bins, name, vals[k])
+            attempts.append(rec)
+            if ok:
+                return rec, attempts
     return None, attempts
 
 
@@ -416,7 +432,9 @@ def judge_config(prop, tier, config, spec, an, insts, part, known, violations, b
     bins = None
     replayed = 0
     fam_covers = {}
-    for name in sorted(an, key=lambda n: (an[n]['duration_s'])):
+    # failing harnesses are replayed cheapest first, those with a failed scenario obligation before those that only
+    # fail a built-in check (which a native run may not be able to show)
+    for name in sorted(an, key=lambda n: (0 if an[n]['obligations_failed'] else 1, an[n]['duration_s'])):
         h = an[name]
         inst = next((i for i in insts if i['name'] == name), None)
         if inst is None:
